@@ -192,11 +192,20 @@ def toc_lookup_rules(ctx, rule='R8'):
     gi = toc.method('get_element_by_id')
     g3 = cfg_of(gi)
     rn = [n for n in g3.nodes if n.kind == 'return' and n.ast.value is not None and not isinstance(n.ast.value, ast.Constant)]
-    ok = len(rn) == 1 and any(k[0].endswith('.ident == %s' % gi.params[1]) or k[0].startswith('%s == ' % gi.params[1]) and k[0].endswith('.ident') for k in g3.fact_keys_at(rn[0]) if k[1])
+    nx_ = rn[0].ast.value if len(rn) == 1 else None
+    if isinstance(nx_, ast.Call) and norm(nx_.func) == 'next' and len(nx_.args) == 2 and isinstance(nx_.args[0], ast.GeneratorExp) and norm(nx_.args[1]) == 'None':
+        # next((E for ... if E.ident == ident), None): the first element whose ident equals the argument, None when there is none
+        ge_ = nx_.args[0]
+        conds_ = [canon_test(c_) for gen_ in ge_.generators for c_ in gen_.ifs]
+        okn = fact_key('%s.ident == %s' % (norm(ge_.elt), gi.params[1]))[0] in conds_ and len(conds_) == 1
+        ctx.inst(rule, gi, 'by-id-compares-ident', okn, 'get_element_by_id returns the element whose .ident equals the argument (next(.. if e.ident == ident), None))')
+        rn = None
+    ok = rn is not None and len(rn) == 1 and any(k[0].endswith('.ident == %s' % gi.params[1]) or k[0].startswith('%s == ' % gi.params[1]) and k[0].endswith('.ident') for k in g3.fact_keys_at(rn[0]) if k[1])
     if ok:
         cmps_ = [k[0] for k in g3.fact_keys_at(rn[0]) if k[1] and '.ident' in k[0]]
         ok = any(norm(rn[0].ast.value) + '.ident' in c_ for c_ in cmps_)
-    ctx.inst(rule, gi, 'by-id-compares-ident', ok, 'get_element_by_id returns the element whose .ident equals the argument')
+    if rn is not None:
+        ctx.inst(rule, gi, 'by-id-compares-ident', ok, 'get_element_by_id returns the element whose .ident equals the argument')
     gid = toc.method('get_element_id')
     sp = {norm(s.targets[0]) if not isinstance(s.targets[0], (ast.List, ast.Tuple)) else '[%s]' % ', '.join(norm(e) for e in s.targets[0].elts): norm(s.value)
           for s in walk_own(gid.node) if isinstance(s, ast.Assign)}
